@@ -13,7 +13,8 @@ import numpy as np
 
 from sim import core
 from sim.fsseam import FsSeam
-from sim.preds import gen_interval, gen_value_pred, interval_accepts, interval_func, value_accepts, value_func
+from sim.preds import (gen_interval, gen_level_pred, gen_value_pred, interval_accepts, interval_func, level_accepts, level_func, value_accepts,
+                       value_func)
 from sim.wcheck import Disk, MeshView, compare_full, components, gen_world_params
 from checks.c01 import world_reductions
 
@@ -56,6 +57,8 @@ def gen_selection(rng, p, leaves=None):
             x = cell["pos"][d] / p["boxlen"]
             h1, h2 = fine * rng.uniform(0.55, 1.6), fine * rng.uniform(0.55, 1.6)
             sel["intervals"].append({"var": "position_" + c, "lo": max(0.0, x - h1), "hi": min(1.0, x + h2), "lo_closed": rng.random() < 0.5, "hi_closed": rng.random() < 0.5})
+        if rng.random() < 0.2:
+            sel["level"] = gen_level_pred(rng, p["levelmin"], p["levelmax"])
         return sel
     if r < 0.12:
         k = rng.randrange(1, p["ncpu"] + 1)
@@ -73,6 +76,10 @@ def gen_selection(rng, p, leaves=None):
             sel["intervals"].append(gen_interval(rng, c, p["levelmax"]))
     if rng.random() < 0.3:
         sel["values"].append(gen_value_pred(rng, p, ncells_hint=rng.choice([8, 64, 300, 2000])))
+    if rng.random() < 0.25:
+        # 'level' is a mesh variable like any other: a predicate on it caps the traversal (C12) while the
+        # position predicates drive the CPU pre-selection
+        sel["level"] = gen_level_pred(rng, p["levelmin"], p["levelmax"])
     return sel
 
 
@@ -131,10 +138,23 @@ def execute(case, stats):
         stats.inc(f"swarm.ordering={'hilbert' if w.hilbert else 'other'}:ndim={w.ndim}")
         for si, sel in enumerate(case["selections"]):
             preds = sel["intervals"] + sel["values"]
-            expect = [c for c in leaves
+            lv = sel.get("level")
+            base = leaves
+            capped = False
+            if lv is not None:
+                acc = [l for l in range(1, w.levelmax + 1) if level_accepts(lv, l)]
+                if not acc:
+                    continue
+                L = max(acc)
+                capped = L < w.levelmax
+                base = [c for c in w.leaves(lmax=L) if level_accepts(lv, c["level"])]
+                stats.inc("probe.selection_with_level_predicate")
+            expect = [c for c in base
                       if all(interval_accepts(s, w, c) for s in sel["intervals"]) and all(value_accepts(s, w, c) for s in sel["values"])
                       and (sel["cpu_list"] is None or c["cpu"] in sel["cpu_list"])]
             fsel = {}
+            if lv is not None:
+                fsel["level"] = level_func(lv)
             for s in sel["intervals"]:
                 fsel[s["var"]] = interval_func(s, w)
             for s in sel["values"]:
@@ -185,6 +205,8 @@ def execute(case, stats):
                 V(cls, clause, dict(detail, selection=sel, files_opened=nfiles, ncpu=w.ncpu, box_le_two_leaf_sizes=small), site)
             if viol:
                 break
+            if capped:
+                continue  # rows of a truncated tree are not rows of the full load: judged against the model only
             # exact equality with the rows of the unselected load
             sv = MeshView(sub, w)
             idx = np.array([frow[k] for k in sv.keys], dtype=int)
@@ -206,7 +228,7 @@ def measure(case):
     p = case["world"]
     sels = case["selections"]
     return (len(sels), p["ncpu"], p["levelmax"], sum(len(s["intervals"]) + len(s["values"]) + (1 if s["cpu_list"] else 0) for s in sels),
-            p["maxcells"], len(p["hydro_vars"]), int(bool(p["grav"])) + int(bool(p["rt_vars"])) + int(p["sink"] is not None), p["nboundary"],
+            p["maxcells"], len(p["hydro_vars"]) + sum(1 for s in sels if s.get("level")), int(bool(p["grav"])) + int(bool(p["rt_vars"])) + int(p["sink"] is not None), p["nboundary"],
             int(p["units"] != [1.0, 1.0, 1.0]), int(p["ghost_p"] * 10), p["noutput"], int(p["key_quad"]), p["levelmin"])
 
 
@@ -232,5 +254,9 @@ def reductions(case, viol):
                 yield dict(case, selections=sels[:i] + [dict(s, intervals=s["intervals"][:j] + s["intervals"][j + 1:])] + sels[i + 1:])
         if s["values"]:
             yield dict(case, selections=sels[:i] + [dict(s, values=[])] + sels[i + 1:])
+        if s.get("level"):
+            d = dict(s)
+            del d["level"]
+            yield dict(case, selections=sels[:i] + [d] + sels[i + 1:])
         if s["cpu_list"] and (s["intervals"] or s["values"]):
             yield dict(case, selections=sels[:i] + [dict(s, cpu_list=None)] + sels[i + 1:])
